@@ -136,7 +136,7 @@ def _clause_label(c):
 class Contract(object):
     def __init__(self, qualname, setup=None, requires=(), ensures=(), raises=None, modifies=(),
                  ghost=None, result_type=None, result_expr=None, replay=None, note='',
-                 allow_any_raise=False, pure_fresh=None, frame_objects=None):
+                 allow_any_raise=False, result_make=None, pre_state=None):
         self.qualname = qualname
         self.setup = setup
         self.requires = [_clause_label(c) for c in requires]
@@ -152,6 +152,8 @@ class Contract(object):
         self.ghost = ghost or {}
         self.result_type = result_type
         self.result_expr = result_expr
+        self.result_make = result_make
+        self.pre_state = pre_state
         self.replay = replay
         self.note = note
         self.allow_any_raise = allow_any_raise
@@ -220,6 +222,8 @@ class Contract(object):
                 env.vars[g] = make_value(it, T, g)
             if self.result_expr is not None:
                 res = it.spec_eval(self.result_expr, env)
+            elif self.result_make is not None:
+                res = self.result_make(it, env)
             elif self.result_type is not None:
                 res = make_value(it, self.result_type, 'ret_' + func.name)
             else:
@@ -284,6 +288,9 @@ class LoopContract(object):
     def _check_inv(self, it, frame, kind):
         for lab, c in self.invariant:
             it.ctx.prove(self._name(kind, lab), it.spec_truth(c, frame), kind)
+        for n, e in self.define.items():
+            it.ctx.prove(self._name(kind, '%s == %s' % (n, e)),
+                         it.equal_term(frame.vars.get(n), it.spec_eval(e, frame)), kind)
 
     def _assume_inv(self, it, frame):
         for lab, c in self.invariant:
@@ -569,11 +576,12 @@ class FunctionUnit(object):
     """Verify one real function against its own contract."""
     kind = 'function'
 
-    def __init__(self, contract, name=None, inline=(), max_paths=None):
+    def __init__(self, contract, name=None, inline=(), max_paths=None, split_depth=None):
         self.contract = contract
         self.name = name or contract.qualname
         self.inline = set(inline)
         self.max_paths = max_paths
+        self.split_depth = split_depth
 
     def functions(self):
         return [self.contract.qualname]
